@@ -86,7 +86,10 @@ def cleanMeta : J → J
 def clean (body : Kvs) : Kvs :=
   let b := dropNullsKvs body
   match lookup "metadata" b with
-  | some m => insert "metadata" (cleanMeta m) b
+  | some m =>
+      match cleanMeta m with
+      | obj [] => erase "metadata" b      -- only system fields are left: they are not part of `body`
+      | m' => insert "metadata" m' b
   | none => b
 
 def withStatus (body : Kvs) : Option J → Kvs
@@ -179,6 +182,12 @@ structure Env where
   slips : Kind → Option Foreign     -- a foreign write right before the request of that kind
   faults : Kind → Fault             -- an injected response instead of serving it
 
+/-- the server after the foreign write (if any) that slips in right before the request of kind `k`. -/
+def slipped (env : Env) (k : Kind) (s : Server) : Server :=
+  match env.slips k with
+  | some w => foreign w s
+  | none => s
+
 /-- the payload applied to the stored object; `none` = the `test` op fails (422). -/
 def applyPayload (pl : Payload) (o : Obj) : Option Obj :=
   match pl with
@@ -202,9 +211,7 @@ def route (sub toStatus : Bool) (old new : Obj) : Obj :=
 /-- One request: the slip (if any) happens first, then the fault (if any) answers instead of the
     server, else the object stored under the NAME is patched. -/
 def step (sub : Bool) (env : Env) (k : Kind) (pl : Payload) (s : Server) : Server × Req × Option Obj :=
-  let s1 := match env.slips k with
-    | some w => foreign w s
-    | none => s
+  let s1 := slipped env k s
   match env.faults k with
   | .notFound => (s1, ⟨k, pl, none, 404⟩, none)
   | .unprocessable => (s1, ⟨k, pl, none, 422⟩, none)
@@ -272,20 +279,35 @@ def stageMerge (sub : Bool) (p : Patch) (env : Env) (st : St) : M St := do
   | some v => doReq sub env .mergeStatus (.merge [("status", v)]) st1
   | none => pure st1
 
-/-- the two JSON-patches: ops from the fns on the freshest body `F`, computed once. -/
-def stageJson (sub : Bool) (p : Patch) (orig : Obj) (env : Env) (st : St) : M St := do
-  let F := st.fresh.getD orig
-  let T := applyFns p.fns F
+/-- the body JSON-patch the fns ask for on the fresh body `F` (none: no body ops). Our fns only
+    touch the finalizers and the status; without a subresource the status ops are body ops. -/
+def jsonBodyPayload (sub : Bool) (fns : List Fn) (F : Obj) : Option Payload :=
+  let T := applyFns fns F
   let fi := if finsChanged F T then some T.fins else none
   let sb := if !sub && statusChanged F T then lookup "status" T.body else none
-  let st3 ← if fi.isSome || sb.isSome then doReq sub env .jsonBody (.json F.rv fi sb) st
-            else pure st
-  let F' := st3.fresh.getD orig
-  if sub && statusChanged F T then
-    match lookup "status" T.body with
-    | some v => doReq sub env .jsonStatus (.json F'.rv none (some v)) st3
-    | none => pure st3
-  else pure st3
+  if fi.isSome || sb.isSome then some (.json F.rv fi sb) else none
+
+/-- the status ops (split off only with a subresource): the status the fns made of `F`. -/
+def jsonStatusValue (sub : Bool) (fns : List Fn) (F : Obj) : Option J :=
+  let T := applyFns fns F
+  if sub && statusChanged F T then lookup "status" T.body else none
+
+def stageJsonBody (sub : Bool) (p : Patch) (F : Obj) (env : Env) (st : St) : M St :=
+  match jsonBodyPayload sub p.fns F with
+  | some pl => doReq sub env .jsonBody pl st
+  | none => pure st
+
+/-- the status ops were computed on `F` too ("we DO NOT recalculate the diff"); only the tested
+    version is that of the freshest response. -/
+def stageJsonStatus (sub : Bool) (p : Patch) (F orig : Obj) (env : Env) (st : St) : M St :=
+  match jsonStatusValue sub p.fns F with
+  | some v => doReq sub env .jsonStatus (.json (st.fresh.getD orig).rv none (some v)) st
+  | none => pure st
+
+/-- the two JSON-patches: ops from the fns on the freshest body `F = patched_body or patch._original`,
+    computed once. -/
+def stageJson (sub : Bool) (p : Patch) (orig : Obj) (env : Env) (st : St) : M St :=
+  stageJsonBody sub p (st.fresh.getD orig) env st >>= stageJsonStatus sub p (st.fresh.getD orig) orig env
 
 inductive Outcome where
   | ok (remaining : Option (List Fn)) (body : Option Obj)   -- `(patched_body, remaining_patch)`
@@ -333,5 +355,18 @@ def cycle (sub : Bool) (mem : Option (List Fn)) (fields : Kvs) (fns : List Fn) (
 
 /-- quiet environment: no slips, no faults -/
 def Env.quiet : Env := { slips := fun _ => none, faults := fun _ => .none }
+
+/-! ## vocabulary of the property statements -/
+
+/-- the leaves of a patch dict: paths to non-object values (`null` = removal). -/
+inductive Leaf : Kvs → List String → J → Prop where
+  | here {kvs : Kvs} {k : String} {v : J} : lookup k kvs = some v → v.isObj = false → Leaf kvs [k] v
+  | deeper {kvs sub : Kvs} {k : String} {p : List String} {v : J} :
+      lookup k kvs = some (obj sub) → Leaf sub p v → Leaf kvs (k :: p) v
+
+/-- every field of the patch is in the body: removed fields are absent, set fields have the value. -/
+def Delivered (p body : Kvs) : Prop :=
+  ∀ path v, Leaf p path v →
+    (v = null → resolve? (obj body) path = none) ∧ (v ≠ null → resolve? (obj body) path = some v)
 
 end Kopf.C08
